@@ -274,7 +274,15 @@ func (e *Env) selector(x *ESel) Val {
 	// qualified identifier pkg.Name?
 	if id, ok := x.X.(*EIdent); ok {
 		if _, isVar := e.vars[id.Name]; !isVar {
-			if pkg := e.g.importedPkg(e.pkg, id.Name); pkg != nil {
+			pkg := e.g.importedPkg(e.pkg, id.Name)
+			if pkg == nil && e.locals == nil {
+				pkg = e.g.w.pkgByShort(id.Name)
+			} else if pkg == nil {
+				if _, isLocal := e.locals(id.Name); !isLocal {
+					pkg = e.g.w.pkgByShort(id.Name)
+				}
+			}
+			if pkg != nil {
 				isLocal := false
 				if e.locals != nil {
 					_, isLocal = e.locals(id.Name)
@@ -416,6 +424,48 @@ func (e *Env) call(x *ECall) Val {
 			bv = e.m().structLoad(e.now, b.Ty, b.T)
 		}
 		return Val{T: e.m().structValEq(a.Ty, av, bv), Ty: tBool}
+	case "isclosure":
+		v := e.eval(x.Args[0])
+		k, ok := x.Args[1].(*EStr)
+		if !ok {
+			e.fail("isclosure(f, \"key\")")
+		}
+		e.g.vc.Declare("closfn", []Sort{SInt}, SInt)
+		return Val{T: Eq(App("closfn", v.T), e.g.fnTag(k.V)), Ty: tBool}
+	case "captured":
+		v := e.eval(x.Args[0])
+		k, ok1 := x.Args[1].(*EStr)
+		n, ok2 := x.Args[2].(*EStr)
+		if !ok1 || !ok2 {
+			e.fail("captured(f, \"key\", \"name\")")
+		}
+		fn := e.g.w.funcs[k.V]
+		if fn == nil {
+			e.fail("captured: unknown function %s", k.V)
+		}
+		for _, fv := range fn.FreeVars {
+			if fv.Name() == n.V {
+				pt := fv.Type().Underlying().(*types.Pointer).Elem()
+				cell := e.g.closBind(k.V, n.V, v.T)
+				if isStruct(pt) {
+					return Val{T: cell, Ty: pt, Addr: true}
+				}
+				arr := e.now.Get(cellVar(pt), ArrSort(SInt, sortOf(pt)))
+				return Val{T: Sel(arr, cell), Ty: pt}
+			}
+		}
+		e.fail("captured: %s has no free variable %s", k.V, n.V)
+	case "unbox":
+		v := e.eval(x.Args[0])
+		k, ok := x.Args[1].(*EStr)
+		if !ok {
+			e.fail("unbox(x, \"Type\")")
+		}
+		ty := e.g.resolveType(k.V, e.pkg)
+		if ty == nil {
+			e.fail("unknown type %s", k.V)
+		}
+		return Val{T: e.m().unbox(ty, v.T), Ty: ty}
 	case "typeis":
 		// typeis(iface, "pkg.Type") — dynamic type test via tag name
 		v := e.eval(x.Args[0])
